@@ -1,5 +1,5 @@
 #!/bin/bash
 # usage: sched/run.sh <C08|C20> [--tier ...]  (called by ./check)
 cd /verif
-( flock 9; ./sched/build.sh >/dev/null 2>.build/sbuild.err ) 9>.build/slock || { cat .build/sbuild.err | tail -20; echo "INFRASTRUCTURE ERROR: scheduler harness build failed"; exit 2; }
+( flock 9; ./sched/build.sh >/dev/null 2>.build/sbuild.err && RACE=1 ./sched/build.sh >/dev/null 2>>.build/sbuild.err ) 9>.build/slock || { cat .build/sbuild.err | tail -20; echo "INFRASTRUCTURE ERROR: scheduler harness build failed"; exit 2; }
 exec .build/verifs "$@"
